@@ -10,6 +10,7 @@ from rv import util
 from rv.model import codecs as K
 from rv.util import B, CLASSES, call, mk, rb
 
+AMBIENT = ['bytealigned']      # an option this property does not depend on: a quarter of the cases run with it switched on
 PROP = 'C02'
 SHARDS = {'quick': 4, 'thorough': 16}
 RULE = ("for (dtype, n, value) with dtype in uint/int (+u/i), their be/le/ne forms, hex/oct/bin (+h/o/b), bytes, bool, bits, "
